@@ -54,6 +54,8 @@ def a_fmt(x):
             return "%s()#%d" % (l[1], l[3])
         if l[0] == "clob":
             return "%s after %s()" % (_cell_fmt(l[1]), l[2])
+        if l[0] in ("rem", "quot"):
+            return "%s#%d" % (l[0], l[1])
         return str(l)
     parts = []
     for k, c in sorted(x[0].items(), key=repr):
@@ -85,8 +87,9 @@ class PathEval:
     """evaluate one PathView. cell_calls: {srcname: ('load'|'store', cellname)} for helper functions that read/write a
     cell addressed by the VALUE of their first argument (e.g. a length header at the start of a heap buffer)."""
 
-    def __init__(self, P, f, view, cell_calls=None, pure=()):
+    def __init__(self, P, f, view, cell_calls=None, pure=(), watch_ops=()):
         self.P, self.f, self.view = P, f, view
+        self.watch_ops = set(watch_ops)
         self.cell_calls = cell_calls or {}
         self.pure = set(PURE_CALLS) | set(pure) | set(self.cell_calls)
         self.vals = {}
@@ -178,6 +181,8 @@ class PathEval:
                     self.vals[i.id] = self.val(i.a[0])
                 elif op in ("add", "sub"):
                     self.vals[i.id] = a_add(self.val(i.a[0]), self.val(i.a[1]), 1 if op == "add" else -1)
+                    if op in self.watch_ops:
+                        self.events.append(Event(pos, "op", i, {"op": op, "x": self.val(i.a[0]), "y": self.val(i.a[1]), "value": self.vals[i.id]}))
                 elif op == "mul":
                     x, y = self.val(i.a[0]), self.val(i.a[1])
                     if a_const(x) is not None:
@@ -195,8 +200,23 @@ class PathEval:
                         d = 1 << d
                     if d and x[1] % d == 0 and all(c % d == 0 for c in x[0].values()):
                         self.vals[i.id] = ({k: c // d for k, c in x[0].items()}, x[1] // d)
+                    elif d and d > 0 and op != "sdiv":
+                        # q = x div d :  0 <= x - d*q <= d-1
+                        q = self.leaf(("quot", i.id, nv))
+                        self.vals[i.id] = q
+                        r = a_add(x, a_scale(q, d), -1)
+                        self.facts.append((pos, "ge0", r))
+                        self.facts.append((pos, "ge0", a_add(({}, d - 1), r, -1)))
                     else:
                         self.vals[i.id] = self.leaf(("v", i.id, nv))
+                elif (op == "urem" and P.const_int(i.a[1]) is not None and P.const_int(i.a[1]) > 0) or \
+                        (op == "and" and P.const_int(i.a[1]) is not None and P.const_int(i.a[1]) > 0 and
+                         (P.const_int(i.a[1]) & (P.const_int(i.a[1]) + 1)) == 0):
+                    # r = x mod m (or x & (2^k - 1)) :  0 <= r <= m-1
+                    m = P.const_int(i.a[1]) if op == "urem" else P.const_int(i.a[1]) + 1
+                    r = self.leaf(("rem", i.id, nv))
+                    self.vals[i.id] = r
+                    self.facts.append((pos, "ge0", a_add(({}, m - 1), r, -1)))
                 elif op == "getelementptr":
                     g = self._gep_val(i)
                     self.vals[i.id] = g if g is not None else self.leaf(("addr", self.cell_of_addr(i.id)))
@@ -378,7 +398,7 @@ class PathEval:
 
     @staticmethod
     def _unsigned_leaf(l):
-        return l[0] in ("param", "init", "clob")
+        return l[0] in ("param", "init", "clob", "rem", "quot")
 
     def _trivial(self, d, strict):
         if any(c < 0 or not self._unsigned_leaf(l) for l, c in d[0].items()):
@@ -401,6 +421,16 @@ class PathEval:
                 r = a_add(r, ({}, 1))
             if self._trivial(r, strict):
                 return True
+        # two facts: d = f1 + f2 + r
+        fs = [(p, k, self._subst_eq(fct, upto)) for (p, k, fct) in self.facts if p <= upto and p > after and k in ("gt0", "ge0")]
+        if len(fs) <= 60:
+            for x in range(len(fs)):
+                for y in range(x + 1, len(fs)):
+                    r = a_add(a_add(d, fs[x][2], -1), fs[y][2], -1)
+                    bonus = (1 if fs[x][1] == "gt0" else 0) + (1 if fs[y][1] == "gt0" else 0)
+                    r = a_add(r, ({}, bonus))
+                    if self._trivial(r, strict):
+                        return True
         return False
 
     def equal(self, x, y, upto=None):
